@@ -3,9 +3,10 @@
 Require Extraction.
 Require Import ExtrOcamlBasic.
 From MMD.lib Require Import Bytes.
-From MMD.model Require Import DStringModel DStringSpec.
+From MMD.model Require Import DStringModel DStringSpec PoolModel.
 Extraction Language OCaml.
 Extraction "mmdmodel.ml"
   Bytes.find_sub
   DStringModel.ds_new DStringModel.step DStringModel.content
-  DStringSpec.sp_step DStringSpec.op_ok.
+  DStringSpec.sp_step DStringSpec.op_ok
+  PoolModel.pinit PoolModel.pstep PoolModel.well_bracketed.
